@@ -1054,6 +1054,39 @@ func checkConverterPairs(c *Ctx, r *Rec, fr *fmtRoles, st *scanTables) {
 			return true
 		})
 	}
+	// names may also be dispatched through a lookup table keyed by the name (a package-level map
+	// with string keys that a parser method indexes)
+	for _, fd := range c.methodsOf(parser) {
+		ast.Inspect(fd.Body, func(x ast.Node) bool {
+			ix, ok := x.(*ast.IndexExpr)
+			if !ok {
+				return true
+			}
+			tv, ok := info.Uses[identOf(ix.X)].(*types.Var)
+			if !ok || tv.Pkg() == nil || tv.Parent() != tv.Pkg().Scope() {
+				return true
+			}
+			lit := c.packageVarLiteral(tv)
+			if lit == nil {
+				return true
+			}
+			mt, isMap := tv.Type().Underlying().(*types.Map)
+			if !isMap {
+				return true
+			}
+			if _, isFunc := mt.Elem().Underlying().(*types.Signature); !isFunc {
+				return true // a table of texts (the grammar), not of things to do
+			}
+			for _, el := range lit.Elts {
+				if kv, ok := el.(*ast.KeyValueExpr); ok {
+					if s, ok := constString(info, kv.Key); ok && len(dispatched) > 0 {
+						dispatched[s] = true
+					}
+				}
+			}
+			return true
+		})
+	}
 	keys := func(m map[string]bool) []string {
 		var out []string
 		for k := range m {
